@@ -11,7 +11,8 @@
                      d pow(u,q) = q · pow(u,q) / u · du        (q a constant)
                  These laws are the DEFINITION of "formal derivative" here (they are the derivative laws of the
                  real functions wherever the real functions are differentiable, u > 0). `abs`, `pow` with a
-                 non-constant exponent and the other symbols are not differentiated (`diffable` is false).
+                 non-constant exponent and the trigonometric symbols (asin, cos, sin, tan: Mohr–Coulomb) are not
+                 differentiated (`diffable` is false, `evalD` returns 0 for them).
 -/
 import Mathlib.Algebra.Field.Defs
 import TfelVerif.Common.Sym
@@ -28,6 +29,7 @@ inductive E : Type
   | powq (a : E) (n : Int) (d : Nat)
   | pow (a b : E)
   | sqrt (a : E) | cbrt (a : E) | abs (a : E)
+  | asin (a : E) | cos (a : E) | sin (a : E) | tan (a : E)
 
 variable {K : Type} [Field K]
 
@@ -47,6 +49,10 @@ def eval (c c3 : K) (fn : Fns K) (ρ : Nat → K) : E → K
   | .sqrt a => fn.sqrt (eval c c3 fn ρ a)
   | .cbrt a => fn.cbrt (eval c c3 fn ρ a)
   | .abs a => fn.abs (eval c c3 fn ρ a)
+  | .asin a => fn.asin (eval c c3 fn ρ a)
+  | .cos a => fn.cos (eval c c3 fn ρ a)
+  | .sin a => fn.sin (eval c c3 fn ρ a)
+  | .tan a => fn.tan (eval c c3 fn ρ a)
 
 /-- formal derivative along the direction `δ` of the inputs -/
 def evalD (c c3 : K) (fn : Fns K) (ρ δ : Nat → K) : E → K
@@ -66,13 +72,14 @@ def evalD (c c3 : K) (fn : Fns K) (ρ δ : Nat → K) : E → K
   | .sqrt a => evalD c c3 fn ρ δ a / (2 * fn.sqrt (eval c c3 fn ρ a))
   | .cbrt a => evalD c c3 fn ρ δ a / (3 * (fn.cbrt (eval c c3 fn ρ a) * fn.cbrt (eval c c3 fn ρ a)))
   | .abs _ => 0
+  | .asin _ => 0 | .cos _ => 0 | .sin _ => 0 | .tan _ => 0
 
 /-- expressions on which `evalD` is the formal derivative (no `abs`, no `pow` with a symbolic exponent) -/
 def diffable : E → Bool
   | .var _ | .rat _ _ | .c2 | .c3 | .c6 => true
   | .add a b | .sub a b | .mul a b | .div a b => diffable a && diffable b
   | .neg a | .npow a _ | .powq a _ _ | .sqrt a | .cbrt a => diffable a
-  | .pow _ _ | .abs _ => false
+  | .pow _ _ | .abs _ | .asin _ | .cos _ | .sin _ | .tan _ => false
 
 /-- every divisor occurring in an expression (side condition of the derivative theorems: the traced code never
 divides by zero at the point considered) -/
@@ -80,7 +87,7 @@ def divisors : E → List E
   | .var _ | .rat _ _ | .c2 | .c3 | .c6 => []
   | .add a b | .sub a b | .mul a b | .pow a b => divisors a ++ divisors b
   | .div a b => b :: (divisors a ++ divisors b)
-  | .neg a | .npow a _ | .abs a => divisors a
+  | .neg a | .npow a _ | .abs a | .asin a | .cos a | .sin a | .tan a => divisors a
   | .powq a _ _ => a :: divisors a            -- d pow(u,q) divides by u
   | .sqrt a => .sqrt a :: divisors a          -- d sqrt u divides by sqrt u
   | .cbrt a => .cbrt a :: divisors a          -- d cbrt u divides by cbrt u
